@@ -25,6 +25,12 @@ def main(argv):
         else:
             i += 1
     os.environ["VERIF_TIER"] = tier
+    import logging
+    import warnings
+    import formulae  # noqa: F401  (its __init__ resets the logger level; silence it afterwards)
+    logging.getLogger("formulae").setLevel(logging.CRITICAL)
+    logging.getLogger("formulae").handlers[:] = [logging.NullHandler()]
+    warnings.simplefilter("ignore")
     mod = importlib.import_module(f"vf.props.{prop}")
     if replay:
         with open(replay) as fh:
